@@ -232,7 +232,11 @@ def render(ir):
     e("  } else if a == 3 {")
     e('    if mods[k] != nil { print(("ev", "getg", k, mods[k].getg(), mods[k].gv)); } else { print(("ev", "skip")); }')
     e("  } else if a == 4 {")
-    e('    if mods[k] != nil { print(("ev", "setg", k, mods[k].setg(v))); } else { print(("ev", "skip")); }')
+    e('    if mods[k] != nil {')
+    e('      if v % 2 == 0 { print(("ev", "setg", k, mods[k].setg(v))); }')
+    # ... or the importer assigns the module's global through the module object: the module's own code must see it
+    e('      else { var before = mods[k].getg(); mods[k].gv = v; print(("ev", "setattr", k, before, mods[k].getg(), mods[k].gv)); }')
+    e('    } else { print(("ev", "skip")); }')
     e("  } else if a == 5 {")
     e('    if mods[k] != nil { try { print(("ev", "lazy", k, mods[k].lazy())); } catch e { print(("ev", "lazy", k, type(e))); } } else { print(("ev", "skip")); }')
     e("  } else if a < 8 {")
@@ -444,8 +448,13 @@ def model(ir, tape, faults, chooser=None):
                     ev.append([s("skip")])
             elif a == 4:
                 if mods[k] is not None:
-                    gv[k] = v
-                    ev.append([s("setg"), num(k), num(v)])
+                    if v % 2 == 0:
+                        gv[k] = v
+                        ev.append([s("setg"), num(k), num(v)])
+                    else:
+                        probes.inc("module_global_assigned_through_the_module_object")
+                        ev.append([s("setattr"), num(k), num(gv[k]), num(v), num(v)])
+                        gv[k] = v
                 else:
                     ev.append([s("skip")])
             elif a == 5:
